@@ -1189,19 +1189,27 @@ def overlap_probe(TT, world, mk_ctx, nwaiters=2, hold=0.25):
     return bad
 
 
-def preemption_sweep(TT, world, mk_ctx, block_wait=0.15, max_points=80):
+def preemption_sweep(TT, world, mk_ctx, block_wait=0.15, max_points=140, only=None):
     """Model-independent forced interleavings at *line* granularity: thread A
-    is stopped before the n-th line of PyToPy.transform_function (every n),
-    thread B then makes a request for the same key and runs until it returns or
-    blocks; A resumes.  -> (what, detail, n) list"""
+    is stopped before its n-th line event (every n) inside
+    PyToPy.transform_function / _cached_factory AND inside every method of the
+    cache classes of malt/pyct/cache.py it calls (has, __getitem__, _get_key:
+    the lock-free probe must be atomic w.r.t. the other threads), thread B then
+    makes a request for the same key and runs until it returns or blocks; A
+    resumes.  -> (what, detail, n, schedule) list"""
     from malt.pyct import transpiler
+    from malt.pyct import cache as cache_mod
     target = transpiler.PyToPy.transform_function.__code__
     extra = getattr(transpiler.PyToPy, '_cached_factory', None)
     targets = {target} | ({extra.__code__} if extra is not None else set())
+    for cls in (cache_mod._TransformedFnCache, cache_mod.CodeObjectCache):
+        for v in vars(cls).values():
+            if isinstance(v, types.FunctionType):
+                targets.add(v.__code__)
 
     def one(n):
         tr = TT()
-        state = {'lines': 0}
+        state = {'lines': 0, 'trace': []}
         parked = threading.Event()
         resume = threading.Event()
         res = [None, None]
@@ -1209,6 +1217,9 @@ def preemption_sweep(TT, world, mk_ctx, block_wait=0.15, max_points=80):
         def local(frame, event, arg):
             if event == 'line':
                 state['lines'] += 1
+                if state['lines'] <= n:
+                    state['trace'].append('%s:%d(%s)' % (os.path.basename(frame.f_code.co_filename), frame.f_lineno,
+                                                         frame.f_code.co_name))
                 if state['lines'] == n:
                     parked.set()
                     resume.wait(20)
@@ -1246,22 +1257,29 @@ def preemption_sweep(TT, world, mk_ctx, block_wait=0.15, max_points=80):
         ta.join(30)
         if reached:
             tb.join(30)
-        return reached, tr, res, state['lines']
+        return reached, tr, res, state['trace']
     bad = []
-    n = 1
+    n = only or 1
     while n <= max_points:
-        reached, tr, res, total = one(n)
+        reached, tr, res, trace = one(n)
         if not reached:
             break
         cnt = tr.count[(0, 1)]
-        where = 'thread A stopped before its line event #%d in transform_function, thread B asked for the same key meanwhile' % n
+        at = trace[-1] if trace else '?'
+        where = ('thread A (request: class 0, options 1, env 0) stopped before executing %s (its line event #%d), '
+                 'thread B asked for the same key (env 1) meanwhile and ran until it returned or blocked, then A resumed' % (at, n))
+        sched = {'thread_A_lines_executed_before_the_switch': trace[:-1], 'thread_A_paused_before': at,
+                 'then': 'thread B: transform_function(same code object, same options) until return/block; thread A resumes',
+                 'transform_ast_runs_for_the_key': cnt, 'results(A,B)': [repr(r) for r in res]}
         if cnt != 1:
-            bad.append(('the source transformation of one (code, options) pair ran %d times' % cnt, where, n))
+            bad.append(('the source transformation of one (code, options) pair ran %d times' % cnt, where, n, sched))
         for i in (0, 1):
             if res[i] != (0, 1, i):
                 bad.append(('a request was served the wrong function' if not str(res[i]).startswith('ERR')
                             else 'a conversion request died of ' + str(res[i])[4:].split(':')[0],
-                            where + '; thread %s got %r' % ('AB'[i], res[i]), n))
+                            where + '; thread %s got %r' % ('AB'[i], res[i]), n, sched))
+        if only:
+            break
         n += 1
     return bad, n - 1
 
@@ -1288,8 +1306,8 @@ def oracle(run, rnd, tmp, TT, MT, thorough):
     sweep_bad, npoints = preemption_sweep(TT, world, mk_ctx)
     run.count(npoints)
     run.extra['preemption_points_swept'] = npoints
-    for what, detail, n in sweep_bad:
-        failures.append((what, rep('preemption-sweep', what, detail, point=n), None))
+    for what, detail, n, sched in sweep_bad:
+        failures.append((what, rep('preemption-sweep', what, detail, point=n, schedule=sched), None))
     # -- sequential histories: sharing, aliasing, redefinition, collection
     for what, detail, hist in sequential_histories(rnd, TT, world, mk_ctx, 400 if thorough else 20):
         failures.append((what, rep('sequential-history', what, detail, history=hist), None))
@@ -1652,9 +1670,12 @@ def replay(path):
             return UserCtx(o, cls=c)
         world = World(tmp)
         if kind == 'preemption-sweep':
-            bad, _ = preemption_sweep(TT, world, mk_ctx)
-            for what, detail, n in bad:
+            bad, _ = preemption_sweep(TT, world, mk_ctx, only=rep.get('point'))
+            for what, detail, n, sched in bad:
                 print('REPRODUCED:', what, '--', detail)
+                print(json.dumps(sched, indent=1))
+            if not bad:
+                print('not reproduced')
             return 1 if bad else 0
         if kind in ('forced-schedule', 'forced-schedule-min', 'alias-gc'):
             labels = [tuple(l) for l in rep['schedule']]
